@@ -58,12 +58,12 @@ class C19(Prop):
         nscan = 150 if tier == "quick" else 1500
         for i in range(nscan):
             yield self.gen_scan(rng, "scan/random")
-        for i in range(6 if tier == "quick" else 40):
-            c = self.gen_scan(rng, "scan/cli")
+        for i in range(24 if tier == "quick" else 160):
+            c = self.gen_scan(rng, "scan/cli", repeat=0.5)
             c["cli"] = True
             yield c
 
-    def gen_scan(self, rng, gen):
+    def gen_scan(self, rng, gen, repeat=0.25):
         nsc = rng.randint(1, 4)
         names = ["c", "d", "e"][: rng.randint(1, 3)]
         scs = []
@@ -84,6 +84,15 @@ class C19(Prop):
                 rows.append(["F", rng.choice(names), 1, 1, 1, []])
                 total += 1
             scs.append({"name": f"s{i}", "rows": rows})
+        if rng.random() < repeat:
+            # the very same row three or four times in one scaffold (a collapsed repeat placed again and again):
+            # every unordered pair of the copies is a pair of its own, although their report text is identical
+            sc = rng.choice(scs)
+            frs = [r for r in sc["rows"] if r[0] == "F"]
+            if frs:
+                r = rng.choice(frs)
+                for _ in range(rng.choice([2, 3])):
+                    sc["rows"].insert(rng.randrange(len(sc["rows"]) + 1), list(r))
         return {"gen": gen, "kind": "scan", "scaffolds": scs}
 
     def run_impl(self, case):
